@@ -27,7 +27,7 @@ ASSUMPTIONS = [
     "rows range over the integer grid [-2,2]^k: equivalence of predicates is decided on that grid only",
     "direct evaluation by vmon/interp.py (independent of both engines) and by iteration.Engine.convert_predicate",
 ]
-MIN_OBS = {"subexpression_required_columns_checked": 5000, "trivial_true_or_false": 100, "flatten_false": 20, "flatten_lists": 300, "selection_checked": 300, "restricted_rows_evaluated": 1000}
+MIN_OBS = {"subexpression_required_columns_checked": 5000, "trivial_true_or_false": 100, "flatten_false": 20, "flatten_lists": 300, "selection_checked": 300, "merged_selections_checked": 300, "restricted_rows_evaluated": 1000}
 GRID = list(range(-2, 3))
 COLS = ["a", "b", "c"]
 _state: dict = {}
@@ -71,9 +71,10 @@ def gen_case(rng, tier):
     r = rng.random()
     if r < 0.15:
         return {"kind": "expr", "ast": exprs.gen_e(rng, cols, d), "k": k}
+    other = gen_lit_heavy(rng, cols, rng.choice([0, 1, 2])) if rng.random() < 0.6 else exprs.gen_p(rng, cols, 1, wild_ranges=True)
     if r < 0.55:
-        return {"kind": "pred", "ast": gen_lit_heavy(rng, cols, d), "k": k}
-    return {"kind": "pred", "ast": exprs.gen_p(rng, cols, d, wild_ranges=True), "k": k}
+        return {"kind": "pred", "ast": gen_lit_heavy(rng, cols, d), "k": k, "other": other}
+    return {"kind": "pred", "ast": exprs.gen_p(rng, cols, d, wild_ranges=True), "k": k, "other": other}
 
 
 def run_case(case):
@@ -181,6 +182,21 @@ def run_case(case):
                 viol("selection_columns_required_insufficient", f"{sorted(map(str, sreq))}")
         except Exception as exc:  # noqa: BLE001
             viol("selection_construction_raised", exc_str(exc))
+        # ---- merging two selections must store a predicate equivalent to their conjunction
+        try:
+            other_ast = case.get("other")
+            if other_ast is not None:
+                other = exprs.plib(other_ast)
+                merged = R.Selection(lib).simplify(R.Selection(other))  # other applied first, then lib
+                if merged is not None:
+                    c["merged_selections_checked"] = c.get("merged_selections_checked", 0) + 1
+                    for r, v in zip(rows, truth):
+                        want_m = bool(v) and bool(interp.eval_pred(other, r))
+                        if bool(interp.eval_pred(merged.predicate, r)) != want_m:
+                            viol("merged_selection_predicate_not_equivalent", f"Selection({label}).simplify(Selection({exprs.show_p(other_ast)})) stores {merged.predicate}; differs at {r}")
+                            break
+        except Exception as exc:  # noqa: BLE001
+            viol("selection_merge_raised", exc_str(exc))
         # ---- library use must not corrupt the (cached, shared) required-column set
         try:
             from lsst.daf.relation import iteration
